@@ -114,6 +114,7 @@ func printReport(rep *gosym.Report) {
 		if len(f.Stack) > 0 {
 			fmt.Printf("      stack: %s\n", strings.Join(f.Stack, " <- "))
 		}
+		fmt.Printf("      observe: %v\n", f.Observe)
 		b, _ := json.Marshal(f.Nondet)
 		fmt.Printf("      nondet: %s\n", b)
 	}
